@@ -629,7 +629,7 @@ def decode_writes(code, rs):
         return out
     for w, n, t, v in code:
         comp, attr = targets[t % len(targets)]
-        out.append({"by": writers[w % len(writers)], "n": n, "comp": comp, "attr": attr, "value": WRITE_VALUES[v]})
+        out.append({"by": writers[w % len(writers)], "n": 1 + (n - 1) % 3 if v < 3 else n, "comp": comp, "attr": attr, "value": WRITE_VALUES[v]})
     return out
 
 
